@@ -776,9 +776,27 @@ impl<'a> Gen<'a> {
         if !funs.is_empty() && self.tape.chance(3, 4) {
             let f = funs[self.tape.below(funs.len())].clone();
             let Ty::Fun(ps, _) = &f.ty else { return None };
+            // the callee is an expression of its own, evaluated before the arguments: a name, a ticked
+            // name, or an element of an array of functions picked by a (ticked) index
+            let callee = match self.tape.weighted(&[5, 2, 1]) {
+                0 => Expr::Var(f.name.clone()),
+                1 => {
+                    self.label("computed callee");
+                    self.maybe_tick(Expr::Var(f.name.clone()), &f.ty)
+                }
+                _ => {
+                    self.label("computed callee");
+                    let same: Vec<&Var> = funs.iter().filter(|g| g.ty == f.ty).collect();
+                    let g = same[self.tape.below(same.len())].name.clone();
+                    let at = self.tape.below(2);
+                    let items = if at == 0 { vec![Expr::Var(f.name.clone()), Expr::Var(g)] } else { vec![Expr::Var(g), Expr::Var(f.name.clone())] };
+                    let index = self.maybe_tick(Expr::Int(at as i64), &Ty::Int);
+                    Expr::Index(Box::new(Expr::Array(items)), Box::new(index))
+                }
+            };
             let args = ps.iter().map(|p| self.expr(p, depth - 1)).collect();
             self.label("call of a named value");
-            return Some(Expr::Call(Box::new(Expr::Var(f.name)), args));
+            return Some(Expr::Call(Box::new(callee), args));
         }
         if depth >= 2 && self.tape.chance(1, 2) {
             // immediately applied lambda
